@@ -5,6 +5,8 @@ from .. import conds
 from .common import *
 from . import leaf
 
+CRATES = (EY,)
+
 META = {
     "explanation": (
         "Static decision of the waker protocol on MIR: R02.1 the poll leaf tests the version and registers the waker inside ONE exclusive "
@@ -261,4 +263,4 @@ def r02_6(ctx):
             via_guard = contains(e, lambda x: x[0] == "call" and isinstance(x[1], str) and re.search(r"SharedReadLock::<.*>::(lock|lock_owned|try_lock)$|ReusableBoxFuture::<.*>::poll$|OwnedSharedReadGuard|SharedReadGuard", (x[1] or "") + " " + (x[2] or "")))
             ctx.verdict(True if via_guard else None, "R02.6", f, "leaf-called-under-read-lock", b.line_at((blk, 10 ** 6)),
                         "receiver of the poll leaf derives from a read guard: %s" % fmt(e, 5))
-    ctx.floor("R02.6", n, 1 if ctx.config == "default" else 3)
+    ctx.floor("R02.6", n, 1 if not ctx.has_async else 3)
